@@ -353,7 +353,7 @@ func genCfg(seed uint64, n int, tier string, emit func(string, []string, any)) {
 		{path: append(append([]string{}, rc...), "authorizationConfig", "authFileFullPackageName"), vals: []any{"", "vproj/auth"}},
 		{path: append(append([]string{}, o...), "openapi"), vals: []any{"3.0.0", "3.1.0", "2.0", "3.0.1", ""}},
 		{path: append(append([]string{}, o...), "openapi"), del: true},
-		{path: append(append([]string{}, o...), "baseUrl"), vals: []any{"not a url", "", "http://localhost:8080", "ftp://x.y/z"}},
+		{path: append(append([]string{}, o...), "baseUrl"), vals: []any{"not a url", "", "http://localhost:8080", "ftp://x.y/z", "https://api.example.com/v1/", "https://api.example.com/v1"}},
 		{path: append(append([]string{}, o...), "baseUrl"), del: true},
 		{path: append(append([]string{}, o...), "info", "title"), vals: []any{"", "My API é"}},
 		{path: append(append([]string{}, o...), "info", "version"), vals: []any{"", "v2"}},
@@ -395,7 +395,7 @@ func genCfg(seed uint64, n int, tier string, emit func(string, []string, any)) {
 	// the honoured-in-output half under the other OpenAPI version as well
 	for _, m := range muts {
 		last := m.path[len(m.path)-1]
-		if m.del || !(last == "contact" || last == "license" || last == "termsOfService" || last == "description" || last == "securitySchemes") {
+		if m.del || !(last == "contact" || last == "license" || last == "termsOfService" || last == "description" || last == "securitySchemes" || last == "baseUrl") {
 			continue
 		}
 		for _, v := range m.vals {
